@@ -547,6 +547,12 @@ def register(reg):
                                     c.num_polys == a.stop_offsets0[c.i] - s0, c.element_result.n == c.num_polys,
                                     c.x0 == bx[0], c.y0 == bx[1], c.x1 == bx[2], c.y1 == bx[3])),
                 ('polys-done', forall('int', lambda m: Implies(And(m >= 0, m < c.j), er[m] == poly_q_meets(a, s0 + m)))),
+                # the same over raw positions q in the polygon-offsets array (trigger O1[q]): the instance for the witness
+                # of MPOLY_MEETS
+                ('polys-done-by-position', forall('int', lambda q: Implies(
+                    And(q >= a.offsets1.off + s0, q < a.offsets1.off + s0 + c.j),
+                    er[q - a.offsets1.off - s0] == poly_q_meets(a, q - a.offsets1.off)),
+                    patterns=lambda q: [z3.Select(a.offsets1.A, q.z())])),
                 ('polys-todo', forall('int', lambda m: Implies(And(m >= c.j, m < c.num_polys), Not(er[m]))))]
 
     def mp_hints(c):
@@ -555,7 +561,7 @@ def register(reg):
         meets = mp_meets(a, c.i)
         use = ['inv:polys-range', 'inv:polys-done', 'inv:polys-todo', 'inv:range']
         return [('any-implies-meets', Implies(res[c.i], meets), use),
-                ('meets-implies-any', Implies(meets, res[c.i]), use),
+                ('meets-implies-any', Implies(meets, res[c.i]), ['inv:polys-range', 'inv:polys-done-by-position', 'inv:range']),
                 ('this-element', mp_cell(a, res, c.i), ['inv:range', 'hint:any-implies-meets', 'hint:meets-implies-any'])]
 
     reg.add(Contract(INT + '::multipolygons_intersect_bounds',
